@@ -6,4 +6,6 @@ MODULES = [
     "specs.api",
     "specs.generator",
     "specs.pipeline",
+    "specs.analysis",
+    "specs.cli",
 ]
